@@ -38,6 +38,7 @@ def handleD (vals hosts : String) : String :=
         "ok " ++ evs ++ " " ++ showTree t ++ " " ++ bits ++ " " ++ showTree r.1
       | .assure => "reject:exception:partial-overlap"
       | .dangling => "ub:dangling"
+      | .rejected => "reject:exception:multi-dot"
       | .fuel => "model:fuel"
   | _, _ => "bad-op"
 
